@@ -619,3 +619,73 @@ def roadm_path_lookup_rule(ctx, rule, why):
                   f'a ROADM path is registered for ({ast.unparse(fr) if fr is not None else "?"} -> {ast.unparse(to) if to is not None else "?"}) with the '
                   f'impairment profile looked up for another pair: {why}')
     return n
+
+
+def neighbour_args_rule(ctx, rule, why):
+    """inside the OMS walk of set_egress_amplifier every callee that takes the neighbours of the element being designed
+    (parameters prev_node / next_node) receives the walk's own running predecessor and the element's successor - the same two
+    variables at every call site (restrictions, pre-selection and design all look at the same neighbours)"""
+    repo = ctx.repo
+    f = repo.func('gnpy.core.network', 'set_egress_amplifier')
+    got = {'prev_node': {}, 'next_node': {}}
+    for c in [x for x in ast.walk(f.node) if isinstance(x, ast.Call)]:
+        a = named_args(c)
+        for role in got:
+            if role in (getattr(c, '_callee_params', None) or []) and role in a:
+                got[role].setdefault(ast.unparse(a[role]), []).append(c)
+    n = 0
+    for role, vals in got.items():
+        n += 1
+        sites_n = sum(len(v) for v in vals.values())
+        ok = len(vals) == 1 and sites_n >= 3
+        ctx.check(rule, f'{site(f)} {role} at {sites_n} call sites', ok, key(f, f'neighbour|{role}'),
+                  f'the callees of the OMS walk do not all receive the same variable for {role}: {sorted(vals)}: {why}')
+    # the running predecessor is advanced in the walk, the successor comes from the walk's own pairs
+    loops = [lp for lp in walk_no_nested(f.node) if isinstance(lp, ast.For) and isinstance(lp.target, ast.Tuple) and len(lp.target.elts) == 2]
+    pv = next(iter(got['prev_node']), None)
+    nv = next(iter(got['next_node']), None)
+    ok = any(isinstance(lp.target.elts[1], ast.Name) and lp.target.elts[1].id == nv and
+             any(isinstance(s, ast.Assign) and ast.unparse(s.targets[0]) == pv and ast.unparse(s.value) == ast.unparse(lp.target.elts[0])
+                 for s in lp.body) for lp in loops)
+    ctx.check(rule, f'{site(f)} walk variables', ok, key(f, 'neighbour|walk'),
+              'the neighbours handed to the design callees are not the running predecessor (advanced to the element at the end of each step) '
+              f'and the successor of the (element, successor) pairs of the walk: {why}')
+    return n
+
+
+def roadm_input_rule(ctx, rule, why):
+    """the reference power at a ROADM input, per ingress degree: walk upstream over the passive elements summing their losses; where
+    the walk ends on another ROADM, the power is that ROADM's target FOR THE DEGREE THE WALK CAME FROM (the last element
+    walked, adjacent to the upstream ROADM) - not for the element adjacent to this ROADM; the entry is stored under the
+    ingress element of THIS ROADM"""
+    repo = ctx.repo
+    f = repo.func('gnpy.core.network', 'set_roadm_input_powers')
+    whiles = [w for w in walk_no_nested(f.node) if isinstance(w, ast.While)]
+    ok = len(whiles) == 1
+    s_ = site(f)
+    if not ok:
+        raise CannotAnalyse('set_roadm_input_powers: upstream walk')
+    w = whiles[0]
+    adv = [s for s in w.body if isinstance(s, ast.Assign) and isinstance(s.targets[0], ast.Name) and 'predecessors' in ast.unparse(s.value)]
+    ok = len(adv) == 1
+    walker = adv[0].targets[0].id if ok else None
+    trail = [s.targets[0].id for s in w.body if isinstance(s, ast.Assign) and isinstance(s.targets[0], ast.Name) and
+             isinstance(s.value, ast.Name) and s.value.id == walker and ok and s.lineno < adv[0].lineno]
+    lp = enclosing(w, ast.For)
+    ingress = lp.target.id if lp is not None and isinstance(lp.target, ast.Name) else None
+    calls = [c for c in ast.walk(f.node) if isinstance(c, ast.Call) and getattr(c.func, 'attr', '') == 'get_per_degree_ref_power']
+    okc = ok and len(trail) == 1 and len(calls) == 1
+    if okc:
+        a = named_args(calls[0]).get('degree') or (calls[0].args[0] if calls[0].args else None)
+        okc = a is not None and ast.unparse(a) == f'{trail[0]}.uid' and ast.unparse(calls[0].func.value) == walker
+    ctx.check(rule, f'{s_} upstream ROADM degree', okc, key(f, 'upstream-degree'),
+              f'the target of an upstream ROADM is not read for the degree the walk came from (<last walked element>.uid): {why}',
+              ast.unparse(calls[0])[:100] if calls else '')
+    stores = [n for n in ast.walk(lp) if isinstance(n, ast.Subscript) and isinstance(n.ctx, ast.Store) and ast.unparse(n.value).endswith('.ref_pch_in_dbm')] if lp is not None else []
+    oks = bool(stores) and all(ast.unparse(x.slice) == f'{ingress}.uid' for x in stores)
+    ctx.check(rule, f'{s_} stored per ingress element', oks, key(f, 'ingress-key'),
+              f'the reference input power is not stored under the uid of the ingress element of this ROADM: {why}')
+    loss = [s for s in w.body if isinstance(s, ast.AugAssign) and isinstance(s.op, ast.Add) and ast.unparse(s.value) == f'{walker}.loss']
+    ctx.check(rule, f'{s_} losses of the walk', len(loss) == 1 and loss[0].lineno < adv[0].lineno, key(f, 'walk-loss'),
+              f'the loss of every passive element crossed by the walk is not added (before moving on): {why}')
+    return 3
